@@ -196,3 +196,17 @@ func (c *Conn) VerifZeroRTTLedger() (packets int, bytesInFlight int64) {
 	}
 	return -1, -1
 }
+
+// VerifCheckCIDParams runs the real checkTransportParameters of this connection on transport parameters
+// carrying the given connection IDs (rsc == nil: retry_source_connection_id absent) and returns its error.
+func (c *Conn) VerifCheckCIDParams(isc, odc []byte, rsc []byte, hasRSC bool) error {
+	p := &wire.TransportParameters{
+		InitialSourceConnectionID:       protocol.ParseConnectionID(isc),
+		OriginalDestinationConnectionID: protocol.ParseConnectionID(odc),
+	}
+	if hasRSC {
+		r := protocol.ParseConnectionID(rsc)
+		p.RetrySourceConnectionID = &r
+	}
+	return c.checkTransportParameters(p)
+}
